@@ -183,12 +183,15 @@ fn run_gated(tracer: &Tracer, rng: &mut StdRng, scenario: &str, tag: Value) {
     let mut cfg = Cfg::default();
     cfg.threads = 1;
     cfg.flush_after = pick(rng, &[1u32, 2]);
+    if scenario == "uncommitted_delete_commit" {
+        cfg.flush_after = 2; // two documents per segment: a source that loses one of them survives the commit
+    }
     cfg.merge = "none".into();
     tracer.emit(json!({"ev":"reset","cfg":cfg.to_json(),"tag":tag}));
     let mut w = World::new_quiet(tracer, &cfg, true);
     install_sink(tracer, w.regs.clone(), None);
     w.exec(&json!({"op":"new_writer"}));
-    let n0 = rng.random_range(3..8u64);
+    let n0 = if scenario == "uncommitted_delete_commit" { 4 } else { rng.random_range(3..8u64) };
     for id in 1..=n0 {
         w.exec(&json!({"op":"add","id":id,"t":pick(rng, &["a","b"]),"v":id as i64}));
     }
@@ -227,8 +230,21 @@ fn run_gated(tracer: &Tracer, rng: &mut StdRng, scenario: &str, tag: Value) {
         }
         w.exec(&json!({"op":"del","pred":{"k":"term","t":pick(rng, &["a","b"])}}));
     }
+    if scenario == "uncommitted_delete_commit" {
+        // segments of the transaction in progress: the merge is one of UNCOMMITTED segments, overtaken
+        // by a commit that deletes from them - the merged segment must catch up with that delete
+        for id in (n0 + 1)..=(n0 + 4) {
+            w.exec(&json!({"op":"add","id":id,"t":pick(rng, &["a","b"]),"v":id as i64}));
+        }
+        w.exec(&json!({"op":"wait_uncommitted","n":2,"docs":4}));
+    }
     // start the merge without waiting for it
-    let ids = w.index.searchable_segment_ids().unwrap_or_default();
+    let ids = if scenario == "uncommitted_delete_commit" {
+        let uuids: Vec<String> = w.regs.lock().unwrap().0.clone();
+        uuids.iter().filter_map(|u| tantivy::index::SegmentId::from_uuid_string(u).ok()).collect()
+    } else {
+        w.index.searchable_segment_ids().unwrap_or_default()
+    };
     let fut = w.writer.as_mut().map(|wr| wr.merge(&ids));
     tracer.emit(json!({"ev":"merge_started","n":ids.len()}));
     {
@@ -309,6 +325,11 @@ fn run_gated(tracer: &Tracer, rng: &mut StdRng, scenario: &str, tag: Value) {
         "fresh_writer_delete" => {
             w.exec(&json!({"op":"add","id":n0 + 1,"t":"c","v":0}));
         }
+        "uncommitted_delete_commit" => {
+            w.exec(&json!({"op":"del","pred":{"k":"id","id":n0 + 1}}));
+            w.exec(&json!({"op":"del","pred":{"k":"id","id":n0 + 3}}));
+            w.exec(&json!({"op":"commit"}));
+        }
         "stale_end_merge" => {
             // the old updater is inside its end_merge task (past the `killed` test); the writer is
             // rolled back and the NEW writer commits; then the old task goes on and saves ITS metas
@@ -363,7 +384,7 @@ fn main() {
             }
         }
         "gated" => {
-            let scen = ["delete_commit", "rollback", "delete_all_commit", "two_commits", "fresh_writer_delete", "wait_with_intruder", "stale_end_merge", "delete_commit_fault"];
+            let scen = ["delete_commit", "rollback", "delete_all_commit", "two_commits", "fresh_writer_delete", "wait_with_intruder", "stale_end_merge", "delete_commit_fault", "uncommitted_delete_commit"];
             for r in 0..runs {
                 let s = scen[(r as usize) % scen.len()];
                 run_gated(&tracer, &mut rng, s, json!({"seed":seed,"run":r,"scenario":s}));
